@@ -949,7 +949,8 @@ func (x *Exec) rangeNext(in *ssa.Next, f *frame, st *State, reach string) Val {
 	dom := x.mapDom(st, mt, xv.L[0], k.L[0])
 	x.sc.Assume(reach, Implies(okT, And(dom, Not(Select(vis, k.L[0])))))
 	d := st.Get(x.mdName(mt), "(Array Int (Array "+ks+" Bool))")
-	domArr := x.sc.Define("domarr", "(Array "+ks+" Bool)", Select(d, xv.L[0]))
+	domArr := x.sc.Name("domarr", "(Array "+ks+" Bool)", Select(d, xv.L[0]))
+	vis = x.sc.Name("vis", "(Array "+ks+" Bool)", vis)
 	x.sc.Assume(reach, Implies(Not(okT), "(forall ((k "+ks+")) (! (=> "+And(Not(Eq(xv.L[0], "0")), "(select "+domArr+" k)")+" (select "+vis+" k)) :pattern ((select "+domArr+" k))))"))
 	raw := x.mapGet(st, mt, xv.L[0], k.L[0])
 	ls := x.eng.layout(mt.Elem())
